@@ -248,6 +248,8 @@ impl C14 {
         fams.add("conversion to +-HH:MM keeps the instant or is refused", vec![2, 100, 100, 2]);
         // fraction digits are decimal digits: every 4-digit fraction, and for 5..9 digits 2000 values spread over the range
         fams.add("fractional seconds: every 4-digit fraction; 2000 values of each length 5..9", vec![10_000 + 5 * 2000]);
+        // the offset conversion as the public AST carries it: any i64 number of seconds
+        fams.add("conversion to an offset given through the API (Conversion::Offset(i64))", vec![API_OFFS.len() as u64, 4]);
         C14 { fams, instants, core, tznames, nows, ctx: Lazy::new() }
     }
 
@@ -295,7 +297,7 @@ impl Space for C14 {
         Meta {
             id: "C14",
             level: "exploration",
-            rule: "instants: 11 boundary years x {Jan 1, Feb 28, Feb 29, Mar 1, Jun 30, Dec 31} x 4 times (incl. .000000001 and .999999999) x 11 zone spellings (none, 6 fixed offsets incl. +HHMM, 4 named zones), each written in 10 pattern forms (ISO space/T, date only, no seconds, ordinal, month-name US/astronomical, 12-hour, ctime, AD); fractional seconds of 1..12 digits, every 4-digit fraction and 2000 spread values of each length 5..9; 12 time-only literals x 7 clock values incl. DST-gap days; literal offsets +-HH:MM / +-HHMM for all HH 00..99; (d+t)-d=t and (d-t)+t=d for a core of instants x 26 whole-nanosecond durations in 8 units; d1-d2 for all ordered pairs of the core against own days-from-civil arithmetic; conversion of instants to every chrono-tz zone name and to every +-HH:MM with HH,MM in 00..99. Non-trivial = judged; distinct by query text".into(),
+            rule: "instants: 11 boundary years x {Jan 1, Feb 28, Feb 29, Mar 1, Jun 30, Dec 31} x 4 times (incl. .000000001 and .999999999) x 11 zone spellings (none, 6 fixed offsets incl. +HHMM, 4 named zones), each written in 10 pattern forms (ISO space/T, date only, no seconds, ordinal, month-name US/astronomical, 12-hour, ctime, AD); fractional seconds of 1..12 digits, every 4-digit fraction and 2000 spread values of each length 5..9; 12 time-only literals x 7 clock values incl. DST-gap days; literal offsets +-HH:MM / +-HHMM for all HH 00..99; (d+t)-d=t and (d-t)+t=d for a core of instants x 26 whole-nanosecond durations in 8 units; d1-d2 for all ordered pairs of the core against own days-from-civil arithmetic; conversion of instants to every chrono-tz zone name and to every +-HH:MM with HH,MM in 00..99; conversion to 26 offsets handed over as the AST carries them (Conversion::Offset(i64) through Context::eval_query: inside +-24 h, at +-86400, at the ends of i32, 2^32 + k, i64::MIN/MAX) x 4 instants. Non-trivial = judged; distinct by query text".into(),
             assumptions: vec![
                 "chrono-tz zone data gives the offset of a named zone at a local time (trusted base)".into(),
                 "patterns that do not determine a date (ISO week without weekday, month-day without year) are not judged".into(),
@@ -409,6 +411,48 @@ impl Space for C14 {
                     Err(e) => out = out.viol("d1 - d2 fails", format!("`{}`: {}", q, e)),
                 }
             }
+            Plan::ConvertApi { inst, off, source } => {
+                use rink_core::ast::{Conversion, Query};
+                use rink_core::parsing::text_query;
+                ctx.set_time(fixed_now());
+                let mut it = text_query::TokenIterator::new(&source).peekable();
+                let expr = match text_query::parse_query(&mut it) {
+                    Query::Expr(e) => e,
+                    other => panic!("date literal did not parse as an expression: {:?}", other),
+                };
+                let query = Query::Convert(expr, Conversion::Offset(off), None, rink_core::output::Digits::Default);
+                let got = date_of(ctx.eval_query(&query));
+                let legal = off > -86400 && off < 86400;
+                match (legal, got) {
+                    (false, Err(_)) => out.outcome = "API offset beyond +-24h refused".into(),
+                    (false, Ok(d)) => {
+                        out.outcome = "API offset beyond +-24h accepted".into();
+                        out = out.viol("offset outside +-24 h is accepted", format!("`{}` -> {}", q, d.rfc3339));
+                    }
+                    (true, Ok(_)) if off % 60 != 0 => {
+                        // seconds in an offset cannot be read back from the rfc3339 text (as for local mean time)
+                        out.outcome = "API offset converted (seconds in the offset: instant not read back)".into();
+                    }
+                    (true, Ok(d)) => {
+                        out.outcome = "API offset converted".into();
+                        match read_reply(&d) {
+                            Some((g, _, shown)) => {
+                                if !inst.contains(&g) {
+                                    out = out.viol("zone conversion changes the instant", format!("`{}` -> {}", q, d.rfc3339));
+                                }
+                                if off % 60 == 0 && shown != off {
+                                    out = out.viol("conversion shows another offset", format!("`{}` -> {}", q, d.rfc3339));
+                                }
+                            }
+                            None => out = out.viol("unreadable rfc3339", d.rfc3339.clone()),
+                        }
+                    }
+                    (true, Err(e)) => {
+                        out.outcome = "conversion refused".into();
+                        out = out.viol("valid zone conversion refused", format!("`{}`: {}", q, e));
+                    }
+                }
+            }
             Plan::Convert { inst, offset } => {
                 ctx.set_time(fixed_now());
                 let got = date_of(eval_q(ctx, &q));
@@ -451,7 +495,16 @@ fn sub_minute(offs: &Result<Vec<i64>, ()>) -> bool {
     matches!(offs, Ok(v) if v.iter().any(|o| o % 60 != 0))
 }
 
+/// Offsets as a caller of the public API can hand them over: inside and outside +-24 h, at the
+/// ends of i32 and beyond (a conversion that narrows the number wraps them back into range).
+const API_OFFS: [i64; 26] = [
+    0, 1, -1, 60, 3600, -19800, 45 * 60, 86399, -86399, 86340, 86400, -86400, 86401, 362340, 2147483647, 2147483648, -2147483648, -2147483649,
+    4294967296, 4294967296 + 3600, -4294967296 - 19800, 3 * 4294967296 + 7200, 1099511627776, i64::MAX, i64::MIN, i64::MIN + 1,
+];
+
 enum Plan {
+    /// the same through Query::Convert(expr, Conversion::Offset(off), ..) built by the harness
+    ConvertApi { inst: Vec<i128>, off: i64, source: String },
     Skip,
     /// want: acceptable instants or Err = must be refused; civil: (fields, offsets, now override)
     Literal { want: Result<Vec<i128>, ()>, civil: Option<(Civil, Vec<i64>, Option<i64>)> },
@@ -596,6 +649,15 @@ impl C14 {
                         }
                     }
                     _ => (q, Plan::Skip),
+                }
+            }
+            9 => {
+                let off = API_OFFS[d[0] as usize];
+                let (dt, di) = self.inst_text(self.core[(d[1] as usize * 7 + 1) % self.core.len()]);
+                let q = format!("{} -> Conversion::Offset({}) [API]", dt, off);
+                match di {
+                    Ok(i) => (q, Plan::ConvertApi { inst: i, off, source: dt }),
+                    Err(()) => (q, Plan::Skip),
                 }
             }
             8 => {
